@@ -314,6 +314,9 @@ def _fold_enums(ctx: Ctx, idx):
     cases = {
         "string": [("Empty", ""), ("QuickFix", "quickfix"), ("SourceFixAll", "source.fixAll"), ("Dollar", "$/x"), ("Upper", "UPPER")],
         "integer": [("One", 1), ("Zero", 0), ("Negative", -1), ("Big", 2147483647)],
+        # two entries may stand for one value (LanguageKind.Delphi and .Pascal are both "pascal"): both are declared
+        "string with a repeated value": [("Delphi", "pascal"), ("Other", "other"), ("Pascal", "pascal")],
+        "integer with a repeated value": [("First", 1), ("Alias", 1), ("Second", 2)],
     }
     n = 0
     for label, items in cases.items():
@@ -322,7 +325,7 @@ def _fold_enums(ctx: Ctx, idx):
         except Raised as e:
             raise AnalysisError(f"{P_ENUMS}: generate_enum raises {e.exc_name} when folded on a {label} enumeration")
         text = "\n".join(x for x in lines if isinstance(x, str))
-        if label == "string":
+        if label.startswith("string"):
             got = _re.findall(r'EnumMember\(Value = "([^"]*)"\)', text)
         else:
             got = [int(x) for x in _re.findall(r"^\s*\w+ = (-?\d+),", text, _re.M)]
